@@ -126,6 +126,7 @@ type p2variant struct {
 	recvExp   map[int]uint32 // original exponent -> written exponent
 	recvLen   int            // -1 = unchanged
 	recvWrong bool
+	creator   string // "" = normal client id, "empty" = empty body, "padding" = NUL bytes only, "blank" = blanks and NULs
 }
 
 func baseVariant(prot map[string][]byte) *p2variant {
@@ -192,6 +193,12 @@ func (v *p2variant) apply(m c19Mut) {
 		f0.hash[3] ^= 0x40
 	case "fd.hash16k":
 		f0.hash16k[5] ^= 0x02
+	case "creator.body_empty":
+		v.creator = "empty"
+	case "creator.body_padding":
+		v.creator = "padding"
+	case "creator.body_blank":
+		v.creator = "blank"
 	case "fd.name_empty":
 		f0.fdName = ""
 	case "fd.name_long":
@@ -251,7 +258,16 @@ func (v *p2variant) build(prot map[string][]byte) (map[string][]byte, [16]byte, 
 		}
 		return b
 	}
-	creator := refpar2.Frame(setID, refpar2.TypeCreator, pad4([]byte("refmut")))
+	creatorBody := pad4([]byte("refmut"))
+	switch v.creator {
+	case "empty":
+		creatorBody = []byte{}
+	case "padding":
+		creatorBody = []byte{0, 0, 0, 0}
+	case "blank":
+		creatorBody = []byte{' ', ' ', 0, 0}
+	}
+	creator := refpar2.Frame(setID, refpar2.TypeCreator, creatorBody)
 	mainP := refpar2.Frame(setID, refpar2.TypeMain, main)
 	var fds, ifscs [][]byte
 	for _, f := range files {
